@@ -432,18 +432,25 @@ class Unfolder:
             out = []
             for st in states:
                 once = st.fork()
+                flag_loop = isinstance(s, ast.While) and const_truth(s.test) is None
+                entry_truth = const_truth(subst(s.test, st.env)) if flag_loop else None
                 if isinstance(s, ast.While):
                     test = subst(s.test, once.env)
-                    once.conds = once.conds + tuple(atoms(test, True))
+                    if entry_truth is None:
+                        once.conds = once.conds + tuple(atoms(test, True))
                 else:
                     for e in self.eval_effects(subst(s.iter, once.env), once, cls, fn, ctx, depth, want_value=False, record_only=True)[0][:1]:
                         once = e
                     self._kill_target(once, s.target)
-                body = self.block(s.body, [once], cls, fn, ctx2, depth)
+                body = self.block(s.body, [once], cls, fn, ctx2, depth) if entry_truth is not False else []
                 for b in body:
-                    # `continue`/loop end: one more iteration is not unfolded
+                    # `continue`/loop end: one more iteration is not unfolded.  A loop run by a flag (`pending = True; while
+                    # pending: ..`) whose flag is still known to be set at the end of the iteration does not leave here: that
+                    # way out does not exist (the iterations that follow repeat the paths already unfolded)
+                    if flag_loop and not b.done and const_truth(subst(s.test, b.env)) is True:
+                        continue
                     out.append(b)
-                if not (isinstance(s, ast.While) and const_truth(s.test) is True):
+                if not (isinstance(s, ast.While) and const_truth(s.test) is True) and entry_truth is not True:
                     skip = st.fork()
                     out.append(skip)
             return out
@@ -571,14 +578,22 @@ class Unfolder:
         out = []
         for hp in hpaths[:128]:
             s2 = st.fork()
+            # what the caller knew about an attribute the helper stores to speaks about the old value from there on
+            for e in hp.events:
+                if e.kind == "store" and e.target:
+                    _age(s2, e.target)
+            aged = s2.conds
             s2.conds = s2.conds + tuple(c for c in hp.conds if c not in s2.conds)
             if _contradiction(s2.conds):
                 continue
+            base = tuple(st.conds)
             for e in hp.events:
                 if e.kind == "return":
                     continue
                 e2 = copy.copy(e)
-                e2.conds = tuple(st.conds) + tuple(c for c in e.conds if c not in st.conds)
+                e2.conds = base + tuple(c for c in e.conds if c not in base)
+                if e.kind == "store" and e.target:
+                    base = aged
                 e2.handlers = ctx["handlers"] + e.handlers
                 e2.excepts = ctx["excepts"] + e.excepts
                 e2.loops = ctx["loops"] + e.loops
